@@ -115,7 +115,7 @@ theorem hill_TRI_quadratic_form (hc : c * c = 2) (hF hG hH hL hM hN x11 x22 x33 
     quad6 (hill_TRI_DEFAULT_all c c3 fn hF hG hH hL hM hN) [x11, x22, x33, c * x12, c * x13, c * x23] =
       hF * (x11 - x22) ^ 2 + hG * (x22 - x33) ^ 2 + hH * (x33 - x11) ^ 2 +
         2 * hL * x12 ^ 2 + 2 * hM * x13 ^ 2 + 2 * hN * x23 ^ 2 := by
-  simp only [gen_simp, quad6, dot6, row6]
+  simp only [gen_simp, quad6]
   have h2 : c ^ 2 = 2 := by rw [pow_two, hc]
   ring_nf
   simp only [h2]
@@ -404,19 +404,19 @@ theorem hill_GPE_PLATE (hF hG hH hL hM hN : K) :
 theorem hill_PS_PIPE_same_response (hc : c * c = 2) (hF hG hH hL hM hN x11 x22 x33 x12 : K) :
     quad4 (hill_PS_PIPE_all c c3 fn hF hG hH hL hM hN) [x11, x22, x33, c * x12] =
       quad6 (hill_TRI_DEFAULT_all c c3 fn hF hG hH hL hM hN) [x11, x33, x22, 0, c * x12, 0] := by
-  simp only [gen_simp, quad4, dot4, row4, quad6, dot6, row6]
+  simp only [gen_simp, quad4, quad6]
   ring
 
 theorem hill_PE_PIPE_same_response (hc : c * c = 2) (hF hG hH hL hM hN x11 x22 x33 x12 : K) :
     quad4 (hill_PE_PIPE_all c c3 fn hF hG hH hL hM hN) [x11, x22, x33, c * x12] =
       quad6 (hill_TRI_DEFAULT_all c c3 fn hF hG hH hL hM hN) [x11, x33, x22, 0, c * x12, 0] := by
-  simp only [gen_simp, quad4, dot4, row4, quad6, dot6, row6]
+  simp only [gen_simp, quad4, quad6]
   ring
 
 theorem hill_GPE_PIPE_same_response (hc : c * c = 2) (hF hG hH hL hM hN x11 x22 x33 x12 : K) :
     quad4 (hill_GPE_PIPE_all c c3 fn hF hG hH hL hM hN) [x11, x22, x33, c * x12] =
       quad6 (hill_TRI_DEFAULT_all c c3 fn hF hG hH hL hM hN) [x11, x33, x22, 0, c * x12, 0] := by
-  simp only [gen_simp, quad4, dot4, row4, quad6, dot6, row6]
+  simp only [gen_simp, quad4, quad6]
   ring
 
 /-! ## orthotropic stiffness tensors -/
